@@ -105,9 +105,15 @@ def k_void(k: int, c: SimplicialComplex = None) -> SimplicialComplex:
 
     # this probably isn't the optimal way to do this, but it
     # maximises code reuse from the rest of the code base
+    if c is None:
+        c = SimplicialComplex()
+    before = set(c.simplicesOfOrder(k + 1))
     d = k_simplex(k + 1, c=c)
-    sos = list(d.simplicesOfOrder(k + 1))
-    d.deleteSimplex(sos[0])
+    for s in d.simplicesOfOrder(k + 1):
+        if s not in before:
+            # the simplex we've just created
+            d.deleteSimplex(s)
+            break
     return d
 
 
